@@ -579,7 +579,9 @@ def str_template(node: ast.AST):
         for v in node.values:
             if isinstance(v, ast.Constant) and isinstance(v.value, str):
                 out += v.value.replace('%', '%%')
-            elif isinstance(v, ast.FormattedValue) and v.format_spec is None and v.conversion in (-1, 115, 114):
+            elif isinstance(v, ast.FormattedValue) and v.conversion in (-1, 115, 114) and (
+                    v.format_spec is None or (isinstance(v.format_spec, ast.JoinedStr) and len(v.format_spec.values) <= 1 and all(
+                        isinstance(c, ast.Constant) and c.value in ('d', 's', '') for c in v.format_spec.values))):
                 out += '%s'
                 args.append(v.value)
             else:
@@ -612,6 +614,67 @@ def str_template(node: ast.AST):
 
 
 # ---------------------------------------------------------------------------------------------------------------------
+def path_vectors(stmts, preds, stop_at_continue: bool = True) -> set:
+    """Like path_counts for several predicates at once: the set of count vectors (tuples, one entry per predicate) over all
+    paths through `stmts` that end by falling off the end, `continue` or `return` (paths that raise are left out)."""
+    n = len(preds)
+    MANY = 99
+    zero = tuple([0] * n)
+
+    def count_expr(node):
+        return tuple(min(MANY, sum(1 for x in ast.walk(node) if p(x))) for p in preds)
+
+    def add(a, b):
+        return tuple(min(MANY, x + y) for x, y in zip(a, b))
+
+    def go(seq):
+        running, done = {zero}, set()
+        for st in seq:
+            if not running:
+                break
+            if isinstance(st, ast.Return):
+                c = count_expr(st)
+                done |= {add(r, c) for r in running}
+                running = set()
+            elif isinstance(st, (ast.Continue, ast.Break)) and stop_at_continue:
+                done |= set(running)
+                running = set()
+            elif isinstance(st, ast.Raise) or (isinstance(st, ast.Assert) and isinstance(st.test, ast.Constant) and not st.test.value):
+                running = set()
+            elif isinstance(st, ast.If):
+                c = count_expr(st.test)
+                r1, d1 = go(st.body)
+                r2, d2 = go(st.orelse)
+                done |= {add(add(r, c), d) for r in running for d in d1 | d2}
+                running = {add(add(r, c), x) for r in running for x in r1 | r2}
+            elif isinstance(st, (ast.For, ast.While, ast.AsyncFor)):
+                inner = count_expr(st)
+                if any(inner):
+                    many = tuple(MANY if v else 0 for v in inner)
+                    running = {x for r in running for x in (r, add(r, many))}
+            elif isinstance(st, ast.Try):
+                rb, db = go(list(st.body) + list(st.orelse))
+                rs, ds = set(rb), set(db)
+                for h in st.handlers:
+                    rh, dh = go(h.body)
+                    rs |= rh
+                    ds |= dh
+                done |= {add(r, d) for r in running for d in ds}
+                running = {add(r, x) for r in running for x in rs}
+            elif isinstance(st, (ast.With, ast.AsyncWith)):
+                rb, db = go(st.body)
+                done |= {add(r, d) for r in running for d in db}
+                running = {add(r, x) for r in running for x in rb}
+            elif isinstance(st, (ast.FunctionDef, ast.AsyncFunctionDef, ast.ClassDef)):
+                continue
+            else:
+                c = count_expr(st)
+                running = {add(r, c) for r in running}
+        return running, done
+    r, d = go(list(stmts))
+    return r | d
+
+
 def path_counts(stmts, pred) -> set:
     """How many nodes satisfying `pred` are evaluated on a path through `stmts`: the set of counts over all paths that end by
     falling off the end or returning (paths that raise are left out).  A loop whose body can count contributes 0 or 'many' (99)."""
